@@ -1,6 +1,6 @@
 """C17 – eligibility, priority/FIFO order, finality, wait release, idempotent add, counters."""
 from mc.props import qs_explore as X
-from mc.props.c16 import RULE, ASSUME, EXT_OPS, make_cfg
+from mc.props.c16 import RULE, ASSUME, EXT_OPS, make_cfg, narrow_cfg
 
 
 class C17:
@@ -9,9 +9,10 @@ class C17:
 
     def main(self, tier, seed, gate=True):
         cfg, cap = make_cfg(tier, EXT_OPS)
-        return X.search(self.id, cfg, tier, seed, self.families, time_cap=cap,
-                        rule=RULE + "; every RPC return value and every quiescent state is compared with a sequential reference model (mc/ref/queue_ref.py); getstats/qinfo observed in every state",
-                        assumptions=ASSUME, gate=gate)
+        narrow = narrow_cfg(tier, {"add", "readd", "pull", "kill", "eof", "finish", "wait2", "tick"}, bound=10 if tier == "quick" else 12)
+        return X.search_phases(self.id, [("wide", cfg, cap), ("narrow-deep", narrow, 60 if tier == "quick" else 1500)], tier, seed, self.families,
+                               rule=RULE + "; every RPC return value and every quiescent state is compared with a sequential reference model (mc/ref/queue_ref.py); getstats/qinfo observed in every state; second phase: narrow configuration (1 channel, 2 workers, 2 jobs, two-id waits) to a deeper bound",
+                               assumptions=ASSUME, gate=gate)
 
     def replay(self, record):
         return X.replay_history(record, self.families, make_cfg("quick", EXT_OPS)[0])
